@@ -1,16 +1,22 @@
-"""Generator `wrappers`: coq/Gen/Wrappers.v from src/spdc/spdc_obj.rs — the thin wrappers of `impl SPDC`
-(delta_k, optimum_idler, with_/assign_optimum_idler, optimum_crystal_theta, with_/assign_optimum_crystal_theta,
-with_optimum_periodic_poling, with_poling_period, joint_spectrum, counts_*, efficiencies, as_config).
+"""Generators `wrapbase` and `wrap_<name>` (one per forwarder): coq/Gen/WrapBase.v and coq/Gen/W_<name>.v from src/spdc/spdc_obj.rs
+(thin wrappers of `impl SPDC`: delta_k, optimum_idler, with_/assign_optimum_idler, optimum_crystal_theta, with_/assign_optimum_crystal_theta,
+with_optimum_periodic_poling, with_poling_period, joint_spectrum, counts_*, efficiencies, as_config) and src/spdc/efficiencies.rs
+(`efficiencies`).
 
-Each body is interpreted on a symbolic SPDC record whose fields are values of one opaque type `obj`; every function or method
-it calls becomes a parameter (an oracle) of the generated definition, applied to the forwarded arguments IN THE ORDER OF THE
-SOURCE.  What is generated is therefore exactly: which callee, which arguments, in which order, which fields are overwritten
-and in which sequence, and how errors (`?`) propagate.  coq/Proofs/Compose_wrappers.v pins each wrapper to its expected callee and
-argument order by reflexivity, so a swapped argument, a different callee or a dropped assignment breaks S3.
+Each body is interpreted on a symbolic SPDC record (Gen/WrapBase.v) whose fields are values of one opaque type `obj`.  Every function
+or method the body calls is a FIELD, named after the callee, of the wrapper's callee record `<W>_K`; the generated definition
+`<W>_gen (K : <W>_K) self params` applies those fields to the forwarded arguments in the order of the source.  Besides the definition
+each file carries, as Coq string lists, the callee names in order of first use (`<W>_callees`) and every call / assignment of the body
+with its argument expressions in source order (`<W>_calls`: (target, callee, arguments)).  The lemma files pin the string lists by
+reflexivity and instantiate the callee records BY FIELD NAME, so a different callee, exchanged callees, exchanged arguments, a dropped or
+reordered assignment all break S3.
 
-Accepted statements (anything else raises Untranslatable — the body is then not a thin forwarder):
+One generator per wrapper: a body that is not a thin forwarder (see the accepted forms below) is refused (Untranslatable) and only
+Gen/W_<that wrapper>.v disappears; lemma files import only the wrappers they talk about.
+
+Accepted statements:
     self.f = e;                         field update
-    self.m(args);  self.m(args)?;       another SPDC method on the same value (oracle `m : spdc -> … -> spdc` / `option spdc`)
+    self.m(args);  self.m(args)?;       another SPDC method on the same value (callee `m : spdc -> … -> spdc` / `option spdc`)
     self.f.m(args);                     a mutating method on a field:  f := m (f self) args
     let [mut] x = e;  let x = e?;       local binding
     x.m(args);                          a mutating method on a local:  x := m x args
@@ -19,6 +25,7 @@ Accepted statements (anything else raises Untranslatable — the body is then no
                                          PeriodicPoling::Off)
 """
 import os
+import re
 import sys
 
 sys.path.insert(0, os.path.dirname(os.path.dirname(os.path.abspath(__file__))))
@@ -35,9 +42,40 @@ ERASED = {"clone", "to_owned", "into", "as_ref"}
 MAX_STMTS = 4
 
 
+
+def show(e):
+    """source-like text of an argument expression (what is pinned in <W>_calls)"""
+    k = e[0]
+    if k == "paren":
+        return "(" + show(e[1]) + ")"
+    if k == "unary":
+        return e[1] + show(e[2])
+    if k == "path":
+        return "::".join(e[1])
+    if k == "field":
+        return show(e[1]) + "." + e[2]
+    if k == "mcall":
+        return show(e[1]) + "." + e[2] + "(" + ", ".join(show(a) for a in e[3]) + ")"
+    if k == "call":
+        return show(e[1]) + "(" + ", ".join(show(a) for a in e[2]) + ")"
+    if k == "try":
+        return show(e[1]) + "?"
+    raise Untranslatable("<wrappers>", 0, "expression form " + k + " cannot be shown")
+
+
+def callee_args(e):
+    """(callee text, [argument texts]) of a call / method call; ("", [text]) of anything else"""
+    if e[0] == "call":
+        return (show(e[1]), [show(a) for a in e[2]])
+    if e[0] == "mcall":
+        return (show(e[1]) + "." + e[2], [show(a) for a in e[3]])
+    return ("", [show(e)])
+
+
 class W:
-    def __init__(self, path, it):
-        self.path, self.it = path, it
+    def __init__(self, path, it, cname):
+        self.path, self.it, self.cname = path, it, cname
+        self.calls = []         # [(target, callee, [argument source text])] in source order
         self.oracles = []       # [(name, [kinds], result kind, fallible)]
         self.kinds = {}         # parameter -> spdc (a `&SPDC` parameter of a free function); default obj
         self.fallible = False
@@ -50,9 +88,12 @@ class W:
             if o[0] == name:
                 if o[1:] != (kinds, res, fallible):
                     self.fail(f"callee {name} used with two different shapes")
-                return name
+                return self.proj(name)
         self.oracles.append((name, kinds, res, fallible))
-        return name
+        return self.proj(name)
+
+    def proj(self, name):
+        return f"({self.cname}_K_{name} K)"
 
     # ---- expressions: returns (coq term, kind) with kind in obj | spdc
     def ev(self, e, cur, env, allow_try=False):
@@ -112,11 +153,13 @@ class W:
             v, kind = self.ev(st[3], cur, env)
             if kind != "obj":
                 self.fail("assigned value", st)
+            self.calls.append(("self." + lhs[2], "=", [show(st[3])]))
             return self.run(rest, tail, f"(set_{lhs[2]} {cur} {v})", env, depth)
         if st[0] == "let":
             pat, val = st[1], st[3]
             if pat[0] != "pbind" or val is None:
                 self.fail("let pattern", st)
+            self.calls.append((pat[1],) + callee_args(val[1] if self.is_try(val) else val))
             if self.is_try(val):
                 self.fallible = True
                 v, kind = self.ev(val[1], cur, env)
@@ -141,6 +184,7 @@ class W:
                 if any(ak != "obj" for _, ak in avs):
                     self.fail("argument kinds", e)
                 astr = " ".join(a for a, _ in avs)
+                self.calls.append((show(recv), name + ("?" if tr else ""), [show(a) for a in args]))
                 if recv == ("path", ["self"]):
                     o = self.oracle(name, ["spdc"] + ["obj"] * len(avs), "spdc", tr)
                     call = f"({o} {cur}{(' ' + astr) if astr else ''})"
@@ -166,14 +210,14 @@ class W:
 
     def mark_fallible(self, term):
         # the callee at the head of `term` returns a Result
-        head = term.strip("(").split(" ")[0]
         for i, o in enumerate(self.oracles):
-            if o[0] == head:
+            if term.lstrip("(").startswith(self.proj(o[0]).lstrip("(")):
                 self.oracles[i] = (o[0], o[1], o[2], True)
 
     def tail(self, tail, cur, env):
         if tail is None:
             self.fail("no tail expression")
+        self.calls.append(("return",) + callee_args(tail))
         if tail == ("path", ["self"]):
             self.kind = "spdc"
             return f"(Some {cur})" if self.fallible else cur
@@ -195,39 +239,58 @@ class W:
 
 
 def coq_kind(k):
-    return "spdc" if k == "spdc" else "obj"
+    return "(spdc obj)" if k == "spdc" else "obj"
 
 
-def gen_wrappers(repo, out):
+def coq_str(s):
+    return '"' + s.replace('"', '""') + '"'
+
+
+def gen_wrapbase(repo, out):
+    """the SPDC record: the fields named in FIELDS must be public fields of `pub struct SPDC`"""
     path = os.path.join(repo, SRC)
-    items = parse_file(path)
-    lines = [f"(* GENERATED by tools/gen/wrappers.py from {SRC} — do not edit; regenerated on every check run. *)\n"
-             "(* Thin wrappers of `impl SPDC`.  `obj` is one opaque type for every component value (beams, crystal setup, poling,\n"
-             "   frequencies, ranges, integrators, results); every callee is a parameter, applied to the forwarded arguments in source order;\n"
-             "   `?` is rendered with option. *)\n"
-             "Section Wrappers.\nVariable obj : Type.\n"
-             "Record spdc := mk_spdc { " + "; ".join(f"{f} : obj" for f in FIELDS) + " }.\n"]
+    src = open(path).read()
+    m = re.search(r"pub struct SPDC\s*\{(.*?)\n\}", src, re.S)
+    if not m:
+        raise Untranslatable(path, 0, "pub struct SPDC not found")
     for f in FIELDS:
-        lines.append(f"Definition set_{f} (s : spdc) (v : obj) : spdc :=\n  mk_spdc " +
+        if not re.search(r"\bpub\s+" + f + r"\s*:", m.group(1)):
+            raise Untranslatable(path, 0, f"SPDC has no public field {f}")
+    lines = [f"(* GENERATED by tools/gen/wrappers.py from {SRC} — do not edit; regenerated on every check run.\n"
+             "   The SPDC object as the forwarders of Gen/W_*.v see it: `obj` is one opaque type for every component value (beams, crystal\n"
+             "   setup, poling, waist positions; also frequencies, ranges, integrators, results). *)\n"
+             "Record spdc (obj : Type) := mk_spdc { " + "; ".join(f"{f} : obj" for f in FIELDS) + " }.\n"
+             + "\n".join(f"Arguments {n} {{obj}}." for n in ["mk_spdc"] + FIELDS) + "\n"]
+    for f in FIELDS:
+        lines.append(f"Definition set_{f} {{obj : Type}} (s : spdc obj) (v : obj) : spdc obj :=\n  mk_spdc " +
                      " ".join("v" if g == f else f"({g} s)" for g in FIELDS) + ".")
-    lines.append("")
-    todo = []
+    out.write("WrapBase.v", "\n".join(lines) + "\n")
+
+
+def targets(repo):
+    """(generator name, file, item finder)"""
+    t = []
     for nm in WRAPPERS:
-        its = [i for i in items if i.kind == "fn" and i.name == nm and "SPDC" in i.container]
-        if len(its) != 1:
-            raise Untranslatable(path, 0, f"SPDC::{nm} not found exactly once")
-        todo.append((path, its[0], "wrappers:SPDC::" + nm, f"SPDC_{nm}_gen", f"SPDC::{nm}", True))
+        t.append((f"wrap_SPDC_{nm}", SRC, nm, True))
     for rel, nm in FREE:
+        t.append((f"wrap_{nm}", rel, nm, False))
+    return t
+
+
+def make_gen(gname, rel, nm, method):
+    cname = f"SPDC_{nm}" if method else nm
+
+    def g(repo, out):
         fpath = os.path.join(repo, rel)
-        its = [i for i in parse_file(fpath) if i.kind == "fn" and i.name == nm and not i.container]
+        its = [i for i in parse_file(fpath) if i.kind == "fn" and i.name == nm and (("SPDC" in i.container) if method else not i.container)]
+        title = f"SPDC::{nm}" if method else f"{nm} ({rel})"
         if len(its) != 1:
-            raise Untranslatable(fpath, 0, f"{nm} not found exactly once")
-        todo.append((fpath, its[0], "wrappers:" + nm, f"{nm}_gen", f"{nm} ({rel})", False))
-    for fpath, it, key, cname, title, method in todo:
+            raise Untranslatable(fpath, 0, f"{title} not found exactly once")
+        it = its[0]
         if it.error or it.body is None:
             raise Untranslatable(fpath, it.span[0], f"{title}: body does not parse")
-        out.span(key, it)
-        w = W(fpath, it)
+        out.span(("wrappers:SPDC::" if method else "wrappers:") + nm, it)
+        w = W(fpath, it, cname)
         w.kind, w.passthrough = "obj", False
         params = list(it.params)
         if method:
@@ -239,7 +302,7 @@ def gen_wrappers(repo, out):
         for pat, ty in params:
             if pat[0] != "pbind":
                 w.fail("parameter pattern")
-            if pat[1] in FIELDS or pat[1].startswith("set_") or pat[1] in ("self", "obj"):
+            if pat[1] in FIELDS or pat[1].startswith("set_") or pat[1] in ("self", "obj", "K"):
                 w.fail("parameter name clashes with the record model: " + pat[1])
             env[pat[1]] = pat[1]
             tyc = (ty or "").replace(" ", "")
@@ -253,21 +316,30 @@ def gen_wrappers(repo, out):
             w.fail(f"more than {MAX_STMTS} statements")
         w.fallible = w.result_is_result()
         term = w.run(stmts, it.body[2], "self", env)
-        binders = []
+        fields = []
         for (on, kinds, res, fal) in w.oracles:
             ty = " -> ".join([coq_kind(k) for k in kinds] + [(f"option {coq_kind(res)}" if fal else coq_kind(res))])
-            binders.append(f"({on} : {ty})")
+            fields.append(f"{cname}_K_{on} : {ty}")
         rty = coq_kind(w.kind)
         if w.fallible:
             rty = f"option {rty}"
-        doc = "callees, in order of first use: " + (", ".join(o[0] for o in w.oracles) or "(none)")
-        selfb = " (self : spdc)" if method else ""
-        lines.append(f"(* {title} — {doc} *)\n"
-                     f"Definition {cname} {' '.join(binders)}{selfb}{''.join(f' ({p} : {k})' for p, k in pnames)} : {rty} :=\n  {term}.\n")
-    lines.append("End Wrappers.\n")
-    names = ["mk_spdc"] + FIELDS + ["set_" + f for f in FIELDS] + [f"SPDC_{nm}_gen" for nm in WRAPPERS] + [f"{nm}_gen" for _, nm in FREE]
-    lines.append("\n".join(f"Arguments {n} {{obj}}." for n in names) + "\n")
-    out.write("Wrappers.v", "\n".join(lines))
+        selfb = " (self : spdc obj)" if method else ""
+        calls = "[" + ";\n   ".join("(" + coq_str(t) + ", " + coq_str(c) + ", [" + "; ".join(coq_str(a) for a in args) + "])" for t, c, args in w.calls) + "]"
+        text = (f"(* GENERATED by tools/gen/wrappers.py from {rel} — do not edit; regenerated on every check run.  {title} *)\n"
+                "From Coq Require Import String List.\nFrom SpdVerif Require Import Gen.WrapBase.\nImport ListNotations.\nLocal Open Scope string_scope.\n\n"
+                f"(* the callees in order of first use; every call / assignment of the body as (target, callee, argument expressions) in source order *)\n"
+                f"Definition {cname}_callees : list string := [" + "; ".join(coq_str(o[0]) for o in w.oracles) + "].\n"
+                f"Definition {cname}_calls : list (string * string * list string) :=\n  {calls}.\n\n"
+                f"Section W.\nVariable obj : Type.\n"
+                f"(* one field per callee, named after it *)\n"
+                f"Record {cname}_K := mk_{cname}_K {{ " + "; ".join(fields) + " }.\n"
+                f"Definition {cname}_gen (K : {cname}_K){selfb}{''.join(f' ({p} : {coq_kind(k)})' for p, k in pnames)} : {rty} :=\n  {term}.\n"
+                "End W.\n"
+                + "\n".join(f"Arguments {n} {{obj}}." for n in [f"mk_{cname}_K", f"{cname}_gen"] + [f"{cname}_K_{o[0]}" for o in w.oracles]) + "\n")
+        out.write(f"W_{cname}.v", text)
+    return g
 
 
-GENS = {"wrappers": gen_wrappers}
+GENS = {"wrapbase": gen_wrapbase}
+for _g, _rel, _nm, _m in targets(None):
+    GENS[_g] = make_gen(_g, _rel, _nm, _m)
